@@ -29,6 +29,10 @@ func init() {
 			"re-queue semantics.",
 		Run: runC19,
 		Mutants: []Mutant{
+			{Name: "reload-signalled-without-writing-the-file", File: "internal/bgp/frr/config.go",
+				Old: "func generateAndReloadConfigFile(config *frrConfig, l log.Logger) error {\n", New: "func generateAndReloadConfigFile(config *frrConfig, l log.Logger) error {\n\tif config != nil && len(config.Routers) == 0 {\n\t\terr := reloadConfig()\n\t\treturn err\n\t}\n", Expect: "GENERATE"},
+			{Name: "update-dropped-before-it-is-stored", File: "internal/k8s/controllers/frrk8s_config_controller.go",
+				Old: "\tr.desiredConfiguration = desired.DeepCopy()\n\tr.configChangedChan <- struct{}{}", New: "\tif r.desiredConfiguration != nil && len(desired.Spec.BGP.Routers) == 0 {\n\t\treturn\n\t}\n\tr.desiredConfiguration = desired.DeepCopy()\n\tr.configChangedChan <- struct{}{}", Expect: "every-update-stored"},
 			{Name: "k8s-debounce-timer-restarted-by-every-notification", File: "internal/k8s/controllers/frrk8s_config_controller.go",
 				Old: "\t\t\t\tif !timerSet {\n\t\t\t\t\ttimeOut = time.After(reloadInterval)\n\t\t\t\t\ttimerSet = true\n\t\t\t\t}\n", New: "\t\t\t\tif !timerSet || cap(in) == 0 {\n\t\t\t\t\ttimeOut = time.After(reloadInterval)\n\t\t\t\t\ttimerSet = true\n\t\t\t\t}\n", Expect: "armed-once-per-burst"},
 			{Name: "submit-after-unlock", File: "internal/bgp/frr/frr.go",
@@ -548,6 +552,22 @@ func c19Submit(p *chk.Prog, r *chk.Report) {
 					okErr = false
 				}
 			}
+			// a return of something that may be nil (the error variable of the last step, or the last step's call itself)
+			// says "success" when it is: the same holds for it unless it is known not to be nil
+			for _, rt := range g.Returns() {
+				rs := rt.Node.(*ast.ReturnStmt)
+				if len(rs.Results) != 1 || gf.IsNilLit(rs.Results[0]) || gf.KnownNonNil(rs.Results[0]) {
+					continue
+				}
+				res := rs.Results[0]
+				if gf.MatchNew(step, ast.Unparen(res)) != nil {
+					continue // the step's own verdict is what is returned
+				}
+				sameRes := func(e ast.Expr) bool { return gf.SameExpr(e, res) }
+				if !g.Dominated(rt, chk.GOr(g.GErrNil(true, step), g.GExprNil(false, sameRes))) {
+					okErr = false
+				}
+			}
 			gen.Check("generateAndReloadConfigFile:"+step, posOf(w, gf), !w.Found && okErr, "", "a reload can report success without "+step+" having run successfully (e.g. skipped because the file looks unchanged: a failed signal or a re-apply request is then never retried)")
 		}
 	}
@@ -884,6 +904,13 @@ func c19K8s(p *chk.Prog, r *chk.Report) {
 			ok = ok && !w2.Found
 		}
 		x.Check("UpdateConfig:store-then-signal", uc.Pos(), ok, "", "the new configuration is not stored before, and signalled after, every update")
+		// ... every update: no return comes before the store (a shortcut "the cluster has this already" compares with
+		// what was applied last, not with what is pending - the pending configuration of a change that was taken back
+		// inside the debounce window is then written although it is no longer wanted)
+		if len(st) == 1 {
+			w3 := g.MustPass(chk.Site{}, func(n ast.Node) bool { _, isRet := n.(*ast.ReturnStmt); return isRet }, false, func(n ast.Node) bool { return n == st[0].Top })
+			x.Check("UpdateConfig:every-update-stored", posOf(w3, uc), !w3.Found, "", "UpdateConfig can return without replacing the desired configuration: what the speaker asked for last is not what is written when the timer fires")
+		}
 	}
 	df := p.LookupFunc(ctrlPkg, "", "debouncer")
 	if df == nil {
@@ -941,6 +968,35 @@ func c19K8s(p *chk.Prog, r *chk.Report) {
 			if id, isId := ast.Unparen(e).(*ast.Ident); isId {
 				if rhs, _ := df.Graph().DefOf(id, df.Graph().FactSite(id)); rhs != nil && df.MatchNew("RECV.reconcileChan", rhs) != nil {
 					return true
+				}
+				// a channel the debouncer makes itself and hands back to its caller (who stores the receiving end)
+				if o := df.ObjOf(id); o != nil {
+					made, returned := false, false
+					for _, as := range assignsTo(df, o) {
+						if a, isAs := as.(*ast.AssignStmt); isAs && len(a.Lhs) == len(a.Rhs) {
+							for i, l := range a.Lhs {
+								if df.ObjOf(l) == o && df.MatchNew("make(T)", a.Rhs[i]) != nil {
+									made = true
+								}
+							}
+						}
+					}
+					ast.Inspect(df.Body, func(n ast.Node) bool {
+						if fl, isLit := n.(*ast.FuncLit); isLit && fl != nil {
+							return false
+						}
+						if rs, isRet := n.(*ast.ReturnStmt); isRet {
+							for _, res := range rs.Results {
+								if df.ObjOf(res) == o {
+									returned = true
+								}
+							}
+						}
+						return true
+					})
+					if made && returned && len(assignsTo(df, o)) == 1 {
+						return true
+					}
 				}
 				// captured by the goroutine literal from the enclosing function
 				for _, as := range assignsTo(df, df.ObjOf(id)) {
